@@ -373,11 +373,8 @@ func TestC02(t *testing.T) {
 	if thorough() {
 		depth = 6
 	}
-	k, nsh := shard()
+	k, nsh := enumSlot() // the enumeration is spread over every work item of the run (each case opens several stores)
 	idx, done := 0, 0
-	if !firstBatch() {
-		depth = 0
-	}
 	for _, retry := range []bool{false, true} {
 		for d := 1; d <= depth; d++ {
 			e := &choose.Enum{}
